@@ -300,7 +300,10 @@ pub fn run(cases: &[Value], trace: &mut Trace, seed: u64) {
             let mut fe2 = fe.clone();
             let (op2, cls2) = (op.clone(), cls.clone());
             let mut rng2 = Rng::new(rng.next());
+            let call_tid = std::sync::Arc::new(std::sync::atomic::AtomicI32::new(0));
+            let ct2 = call_tid.clone();
             let t = std::thread::spawn(move || {
+                ct2.store(gettid(), std::sync::atomic::Ordering::SeqCst);
                 let r = std::panic::catch_unwind(std::panic::AssertUnwindSafe(|| call_op(&mut fe2, &op2, &cls2, v, &mut rng2)));
                 let _ = tx.send(r.ok());
             });
@@ -343,7 +346,9 @@ pub fn run(cases: &[Value], trace: &mut Trace, seed: u64) {
                 if done {
                     break;
                 }
-                if t0.elapsed() > Duration::from_millis(2000) {
+                // "never returns": the watchdog has expired and the caller is seen asleep in a blocking call with nothing left to
+                // read on its socket (this peer has answered all it is going to answer) -- not merely a slow machine
+                if t0.elapsed() > Duration::from_millis(2000) && hang_confirmed(t0, &[call_tid.load(std::sync::atomic::Ordering::SeqCst)], &[fe_fd]) {
                     hang = true;
                     let _ = peer.sock.shutdown(std::net::Shutdown::Both);
                     out = rx.recv_timeout(Duration::from_millis(5000)).ok().flatten();
